@@ -41,11 +41,11 @@ impl SegmentIter {
             IterDirection::Forward => offsets_index,
             IterDirection::Reverse => {
                 offsets.reverse();
-                if offsets_index == 0 && !offsets.is_empty() {
-                    0 // Start from first index after reversal (which is the last event)
-                } else if offsets_index < offsets.len() {
+                if offsets_index < offsets.len() {
+                    // `offsets_index` is the position of the requested event: start there
                     offsets.len() - 1 - offsets_index
                 } else {
+                    // requested position is at or beyond the end: start from the last event
                     0
                 }
             }
